@@ -216,7 +216,10 @@ static void run_locked_case(uint64_t idx, Ctx& c) {
     if (da != dd) c.violation("model-differs", in + ",\"diff\":" + jstr(first_diff(da, dd)));
     bool schema = case_schema(g);
     for (size_t i = 0; i < g.instances.size(); i++) {
-        Verdict va = validate(A.p, g.instances[i], schema, 1), vd = validate(D.p, g.instances[i], schema, 1);
+        if (c.verbose) { printf("validating instance %zu against the ORIGINAL locked pool A\n", i); fflush(stdout); }
+        Verdict va = validate(A.p, g.instances[i], schema, 1);
+        if (c.verbose) { printf("validating instance %zu against the restored locked pool D\n", i); fflush(stdout); }
+        Verdict vd = validate(D.p, g.instances[i], schema, 1);
         c.count("validations");
         if (va.text != vd.text) { c.violation("behaviour-differs", in + ",\"instance\":" + jstr(g.instances[i]) + ",\"diff\":" + jstr(first_diff(va.text, vd.text))); break; }
     }
